@@ -302,7 +302,7 @@ def r4(ctx):
 def r5(ctx):
     from . import C11
     from ..core import include
-    include(ctx, C11, [C11.r6, C11.r8], 'C10-R5')
+    include(ctx, C11, [C11.r6, C11.r8, C11.r9], 'C10-R5')
 
 
 @rule('C10', 'C10-R6', 'the inputs of the window arithmetic are the right ones: contig lengths come from the header of the file being counted, every '
